@@ -6,7 +6,7 @@ RM = "fidget-core/src/render/mod.rs"
 
 
 def txt(n):
-    return A.unparse(n).replace(" ", "")
+    return A.ftxt(n)
 
 
 def hfn(name, root=None):
